@@ -141,6 +141,14 @@ def run(ctx):
     ]
     nsys = ctx.pick(70, 700)
     syss = systems.generate(ctx.rng, nsys)
+    rd = lib.replay_data(ctx)
+    if rd and "system" in rd:
+        lab0 = rd["system"]
+        t0 = {"mons": lab0["mons"], "A": lab0["A"], "v": lab0["v"]}
+        if lab0.get("point"):
+            t0["params"] = sorted(lab0["point"])
+            t0["points"] = [lab0["point"]]
+        syss = [{"family": "replay", "task": t0}]
     tasks = []
     for s in syss:
         for force in (False, True):
